@@ -22,21 +22,27 @@ structure Ent where
   root : Bool
   depth : Nat
   id : Int
+  /-- PROTECTED: the branch hangs off a root that has exactly two neighbours (a root branch of a rooted
+      tree) -/
+  prot : Bool
   deriving Repr, BEq
 
 /- `upTip`: the node above is a tip (only possible for the root, when it has a single
-   neighbour): the branch is then a tip branch whatever is below. -/
+   neighbour): the branch is then a tip branch whatever is below.
+   `pdeg2`: the node above is the root and has exactly two neighbours. -/
 mutual
 def entsT (all : List String) : T → List Ent
-  | .node _ _ k => entsL all false false k
-def entsL (all : List String) (top upTip : Bool) : Kids → List Ent
+  | .node _ _ k => entsL all false false false k
+def entsL (all : List String) (top upTip pdeg2 : Bool) : Kids → List Ent
   | [] => []
   | (e, c) :: r =>
-    ⟨canonSide all c.leaves, e.len, e.sup, c.isLeaf || upTip, c.name, top, lightSize all c.leaves, e.id⟩ ::
-      (entsT all c ++ entsL all top upTip r)
+    ⟨canonSide all c.leaves, e.len, e.sup, c.isLeaf || upTip, c.name, top, lightSize all c.leaves, e.id,
+      pdeg2⟩ ::
+      (entsT all c ++ entsL all top upTip pdeg2 r)
 end
 
-def ents (all : List String) (t : T) : List Ent := entsL all true (t.kids.length == 1) t.kids
+def ents (all : List String) (t : T) : List Ent :=
+  entsL all true (t.kids.length == 1) (t.kids.length == 2) t.kids
 
 /-- The documented criteria. -/
 inductive Crit
@@ -68,8 +74,7 @@ def mdiff {α : Type} [BEq α] (l : List α) : List α → List α
 def meq {α : Type} [BEq α] (a b : List α) : Bool := a.length == b.length && msub a b
 
 /-- Is the branch in the region where the property makes its exact-set claim?
-    Not for the two root branches of a rooted tree; and (hypothesis of the theorems)
-    not when the tree has single-child inner nodes. -/
+    Not for the two root branches of a rooted tree. -/
 def exactRegion (b : T) (e : Ent) : Bool := !(b.rooted && e.root)
 
 /-- The collapse post-condition.  `rt` = the documented `--tips` behaviour (a tip branch that
@@ -77,20 +82,21 @@ def exactRegion (b : T) (e : Ent) : Bool := !(b.rooted && e.root)
     * no tip lost, none invented, root node untouched;
     * every branch that is a tip or does not meet the criterion is still there with its
       length, support and node name (MANDATORY);
-    * every inner branch that meets the criterion in the exact region is gone;
-    * the root branches of a rooted tree that meet the criterion may stay or go (OPTIONAL) —
-      the property makes no claim there;
+    * every inner branch that meets the criterion and is not PROTECTED is gone — also in trees with
+      single-child inner nodes (strict since fix 82ce8b8);
+    * a PROTECTED inner branch that meets the criterion may stay or go (OPTIONAL): the two root
+      branches of a rooted tree, where the property makes no claim (the code keeps them unless
+      `--root`);
     * nothing else exists afterwards. -/
 def collapseOK (crit : Crit) (rt : Bool) (b a : T) : Bool :=
   let all := b.tipNames
   let eb := ents all b
   let ea := ents all a
-  let strict := b.noSingle
   let mand := eb.filterMap fun e =>
     if e.tip then some (if rt && crit.holds e then ({ e with len := 0 } : Ent).key else e.key)
     else if crit.holds e then none else some e.key
   let opt := eb.filterMap fun e =>
-    if !e.tip && crit.holds e && (!(exactRegion b e) || !strict) then some e.key else none
+    if !e.tip && crit.holds e && e.prot then some e.key else none
   sortS a.tipNames == sortS all
     && a.name == b.name
     && msub mand (ea.map Ent.key)
@@ -109,11 +115,24 @@ def collapseWhy (crit : Crit) (rt : Bool) (b a : T) : String :=
   else if !(msub mand (ea.map Ent.key)) then "a branch that must stay (tip, or criterion not met) is missing or changed"
   else "a branch that meets the criterion survived, or a branch was invented"
 
+/- at most two children below the root -/
+mutual
+def deg3Below : T → Bool
+  | .node _ _ k => decide (k.length ≤ 2) && deg3L k
+def deg3L : Kids → Bool
+  | [] => true
+  | (_, t) :: r => deg3Below t && deg3L r
+end
+
+/-- no node with more than three neighbours -/
+def deg3 (t : T) : Bool := decide (t.kids.length ≤ 3) && deg3L t.kids
+
 /-- The resolve post-condition:
     same tips, same root; every branch before is a branch after (split, length, support,
     node name); what was added are inner branches of length 0 without support under
     unnamed nodes; all tip-to-tip distances equal; and the result is binary whenever the
-    input had no single-child node and a root of degree ≥ 2. -/
+    input had no single-child node and a root of degree ≥ 2; in every case (single-child nodes
+    included) no node is left with more than three neighbours. -/
 def resolveOK (b a : T) : Bool :=
   let all := b.tipNames
   let kb := (ents all b).map Ent.key
@@ -125,6 +144,7 @@ def resolveOK (b a : T) : Bool :=
           fun x => x.1.2.1 == 0 && x.1.2.2.1 == NIL && x.1.2.2.2 == "" && !x.2)
     && a.distMatrix == b.distMatrix
     && (!(b.noSingle && 2 ≤ b.kids.length) || a.binary)
+    && deg3 a
 
 def resolveWhy (b a : T) : String :=
   let all := b.tipNames
@@ -135,6 +155,7 @@ def resolveWhy (b a : T) : String :=
   else if !(msub kb ka) then "an original branch is missing or changed"
   else if a.distMatrix != b.distMatrix then "a tip-to-tip distance changed"
   else if (b.noSingle && 2 ≤ b.kids.length) && !a.binary then "result is not binary"
+  else if !(deg3 a) then "a node is left with more than three neighbours"
   else "an added branch is not (inner, length 0, no support, unnamed node)"
 
 /-- obs_C07 (DESIGN §4.2): split map with lengths/supports/node names, multiset of node
